@@ -28,6 +28,7 @@ class Env:
     """one worker's token + reporting helpers"""
     def __init__(s, tok, part, cfg): s.t = tok; s.x = tok.x; s.ck = tok.ck; s.part = part; s.cfg = cfg; s.pfx = '' if cfg == 'asan' else cfg + ':'
     def V(s, sp, entry, cls, outcome, what, **wit):
+        if sp.get('imp') == 'lead0': cls += ':key-imported-with-leading-zero-octets'
         w = {'spec': dict(sp), 'cfg': s.cfg}; w.update({k: (v.hex() if isinstance(v, (bytes, bytearray)) else v) for k, v in wit.items()})
         # a symptom seen under another configuration whose un-prefixed key is a listed finding is that same finding (SoftHSM.cpp-level defects do not depend on the back-end)
         pfx = '' if KNOWN().match('C13', 'C13|%s|%s|%s' % (entry, cls, outcome)) else s.pfx
@@ -85,7 +86,7 @@ def wrapping_keys(e, sp, rnd):
     """-> (key material for refcrypt, wrapping handle, unwrapping handle)"""
     m = sp['mech']
     if m.startswith('CKM_RSA'):
-        k = KF.load()['rsa'][sp['wbits']]; return k, e.t.rsa_pub(k), e.t.rsa_priv(k)
+        k = KF.load()['rsa'][sp['wbits']]; l0 = sp.get('imp') == 'lead0'; return k, e.t.rsa_pub(k, lead0=l0), e.t.rsa_priv(k, lead0=l0)        # lead0: components imported with a leading 00 octet
     if 'DES3' in m:
         wk = R.des_odd_parity(rb(rnd, sp['wlen'])); h = e.t.secret('des3' if sp['wlen'] == 24 else 'des2', wk); return wk, h, h
     wk = rb(rnd, sp['wlen']); h = e.t.secret('aes', wk); return wk, h, h
@@ -313,6 +314,60 @@ def DERIVE_FAMILY(cls):
     if cls.startswith('CKM_ECDH1_DERIVE'): return 'CKM_ECDH1_DERIVE:' + ('montgomery' if cls.split(':')[1].startswith('X') else 'EC')
     if 'ENCRYPT_DATA' in cls or 'CONCATENATE' in cls: return 'symmetric-derive'
     return cls
+def private_attrs(e, pk):
+    """-> (refcrypt key, CKK, C_CreateObject attributes of the private key WITHOUT usage flags/label)"""
+    K = KF.load(); ck = e.ck; ib = KF.ib; t, par = pk[0], pk[1]
+    if t == 'rsa': k = K['rsa'][par]; return k, ck.CKK_RSA, {'CKA_MODULUS': ib(k.n), 'CKA_PUBLIC_EXPONENT': ib(k.e), 'CKA_PRIVATE_EXPONENT': ib(k.d), 'CKA_PRIME_1': ib(k.p), 'CKA_PRIME_2': ib(k.q), 'CKA_EXPONENT_1': ib(k.dp), 'CKA_EXPONENT_2': ib(k.dq), 'CKA_COEFFICIENT': ib(k.qinv)}
+    if t == 'ec': k = K['ec'][par][0]; return k, ck.CKK_EC, {'CKA_EC_PARAMS': k.c.params, 'CKA_VALUE': ib(k.d)}
+    if t == 'dsa': k = K['dsa'][par]; return k, ck.CKK_DSA, {'CKA_PRIME': ib(k.p), 'CKA_SUBPRIME': ib(k.q), 'CKA_BASE': ib(k.g), 'CKA_VALUE': ib(k.x)}
+    if t == 'dh': k = K['dh'][par][0]; return k, ck.CKK_DH, {'CKA_PRIME': ib(k.p), 'CKA_BASE': ib(k.g), 'CKA_VALUE': ib(k.x)}
+    if t == 'ed': k = K['ed'][par][0]; return k, ck.CKK_EC_EDWARDS, {'CKA_EC_PARAMS': R.der_printable(k.c.pname), 'CKA_VALUE': k.sk}
+    k = K['x'][par][0]; return k, ck.CKK_EC_EDWARDS, {'CKA_EC_PARAMS': R.der_printable(R.XNAME[k.kind]), 'CKA_VALUE': k.sk}
+
+def fam_templates_priv(e, sp, rnd):
+    """CKA_WRAP_TEMPLATE / CKA_UNWRAP_TEMPLATE when the wrapped / unwrapped key is a PRIVATE key of every type: each template attribute alone,
+    once matching (positive control) and once not matching (must be refused), for every wrap mechanism that carries private keys"""
+    ck = e.ck; part = e.part; m = sp['mech']; pk = sp['pk']; positive = False; made = []
+    if UNSUPPORTED.get((e.cfg, pk[1])): part.observe('parameter set not implemented by this back-end', {'cfg': e.cfg, 'curve': pk[1]}); return False
+    k, ckk, mat = private_attrs(e, pk); wkv = rb(rnd, sp['wlen']); sp2 = dict(sp); mech, rwrap, runwrap, det = mech_and_ref(e, sp2, rnd, wkv)
+    # value the key has / a value it does not have, per template attribute
+    pool = {'CKA_KEY_TYPE': (ckk, ck.CKK_AES), 'CKA_SIGN': (True, False), 'CKA_DECRYPT': (False, True), 'CKA_DERIVE': (True, False), 'CKA_UNWRAP': (False, True), 'CKA_SENSITIVE': (False, True),
+            'CKA_LABEL': (b'policy-A', b'policy-B'), 'CKA_ID': (b'\1\2', b'\1\3'), 'CKA_CLASS': (ck.CKO_PRIVATE_KEY, ck.CKO_SECRET_KEY)}
+    own = {n: v[0] for n, v in pool.items()}; own.update({'CKA_EXTRACTABLE': True}); own.update(mat)
+    def as_bytes(v): return bytes([v]) if isinstance(v, bool) else v.to_bytes(8, 'little') if isinstance(v, int) else v
+    try:
+        if sp['which'] == 'wrap':
+            hk = e.t.create(own, private=False); made.append(hk)      # public object: byte-string attributes are compared in the clear
+            for n in sorted(pool):
+                for match in (True, False):
+                    hw = e.t.secret('aes', wkv, CKA_WRAP_TEMPLATE=[(n, pool[n][0 if match else 1])]); made.append(hw); rv, blob = e.wrap(mech, hw, hk); part.count('template_probes')
+                    if match:
+                        if rv == 'CKR_OK': positive = True
+                        else: part.observe('WRAP_TEMPLATE: a matching private key was refused', {'rv': rv, 'attr': n, 'pk': pk[0], 'mech': m})
+                    elif rv == 'CKR_OK':
+                        e.V(sp, 'C_WrapKey', 'CKA_WRAP_TEMPLATE:' + n + ':private-key', 'mismatching-key-wrapped', 'a private key whose %s differs from the wrapping key\'s CKA_WRAP_TEMPLATE was wrapped (%s, %s key)' % (n, m, pk[0]))
+        else:
+            blob = rwrap(k.pkcs8()); base = {'CKA_CLASS': ck.CKO_PRIVATE_KEY, 'CKA_KEY_TYPE': ckk, 'CKA_SENSITIVE': False, 'CKA_EXTRACTABLE': True, 'CKA_TOKEN': False, 'CKA_PRIVATE': False}
+            for n in sorted(pool):
+                if n == 'CKA_CLASS': continue
+                want = pool[n][0]; hu = e.t.secret('aes', wkv, CKA_UNWRAP_TEMPLATE=[(n, want)]); made.append(hu)
+                for variant, val in (('consistent-template', want), ('conflicting-caller-value', pool[n][1]), ('omitted-by-caller', None)):
+                    if n == 'CKA_KEY_TYPE' and variant != 'consistent-template': continue           # the key type decides how the blob is decoded
+                    tm = dict(base)
+                    if val is not None: tm[n] = val
+                    elif n in tm: del tm[n]
+                    before = e.t.handles(); rv, h = e.unwrap(mech, hu, blob, tm); part.count('template_probes')
+                    if rv == 'CKR_OK':
+                        made.append(h); a = e.attrs(h, [n])[n]
+                        if a != as_bytes(want): e.V(sp, 'C_UnwrapKey', 'CKA_UNWRAP_TEMPLATE:' + n + ':private-key', 'not-honoured:' + variant, 'a private key unwrapped with this key does not have the %s its CKA_UNWRAP_TEMPLATE prescribes' % n, got=a, want=as_bytes(want))
+                        elif variant == 'consistent-template': positive = True
+                    else:
+                        if variant == 'consistent-template': part.observe('UNWRAP_TEMPLATE: a consistent caller template was refused (private key)', {'rv': rv, 'attr': n, 'pk': pk[0]})
+                        residue(e, sp, 'C_UnwrapKey', 'CKA_UNWRAP_TEMPLATE:' + n + ':private-key', before, rv, 'template')
+    finally:
+        for h in made: e.t.destroy(h)
+    return positive
+
 def adjust(kind, v): return R.des_odd_parity(v) if kind in ('des2', 'des3') else v
 
 def check_derived(e, sp, cls, rv, h, source, kind, n, end, before):
@@ -404,12 +459,13 @@ def fam_kcv(e, sp, rnd):
     before = e.part.counters.get('kcv_checked', 0); e.kcv_check(sp, 'C_CreateObject' if sp['how'] == 'create' else 'C_GenerateKey', 'created' if sp['how'] == 'create' else 'generated', h, kind, v); e.t.destroy(h)
     return e.part.counters.get('kcv_checked', 0) > before
 
-RUN = {'wrap_secret': fam_wrap_secret, 'wrap_private': fam_wrap_private, 'templates': fam_templates, 'derive_asym': fam_derive_asym, 'derive_sym': fam_derive_sym, 'kcv': fam_kcv}
+RUN = {'wrap_secret': fam_wrap_secret, 'wrap_private': fam_wrap_private, 'templates': fam_templates, 'templates_priv': fam_templates_priv, 'derive_asym': fam_derive_asym, 'derive_sym': fam_derive_sym, 'kcv': fam_kcv}
 def distinct_key(sp):
     f = sp['fam']
-    if f == 'wrap_secret': return (f, sp['mech'], sp.get('wlen') or sp.get('wbits'), sp['kind'], sp['klen'], bool(sp.get('lz')))
+    if f == 'wrap_secret': return (f, sp['mech'], sp.get('wlen') or sp.get('wbits'), sp['kind'], sp['klen'], bool(sp.get('lz')), sp.get('imp'))
     if f == 'wrap_private': return (f, sp['mech'], sp.get('wlen'), tuple(sp['pk']))
     if f == 'templates': return (f, sp['which'], sp['i'] % 8)
+    if f == 'templates_priv': return (f, sp['which'], sp['mech'], sp['wlen'], tuple(sp['pk']))
     if f == 'derive_asym': return (f, sp['src'], sp.get('group') or sp.get('curve'), sp['kind'], sp['n'], sp.get('peer'))
     if f == 'derive_sym': return (f, sp['mech'], sp['blen'], sp['dlen'], sp['kind'], sp['n'])
     return (f, sp['how'], sp['kind'], sp['klen'])
@@ -457,6 +513,8 @@ def specs(rnd, thorough):
                 for _ in range(1 if q else 2): add(fam='wrap_secret', mech=m, wbits=wb, kind=kind, klen=n)
             if wb in (1024, 2048):
                 for kind, n in (('aes', 16), ('generic', 33)): add(fam='wrap_secret', mech=m, wbits=wb, kind=kind, klen=n, lz=True, malformed=False)
+            if wb in (1024, 1025):
+                for kind, n in (('aes', 16), ('aes', 32), ('generic', 20), ('des3', 24)): add(fam='wrap_secret', mech=m, wbits=wb, kind=kind, klen=n, imp='lead0', malformed=False)
     privs = [('rsa', 1024), ('rsa', 1025), ('ec', 'P-256'), ('ec', 'P-384'), ('ec', 'P-521'), ('dsa', (1024, 160)), ('dh', 'modp1024'), ('dh', 'dsa1024'), ('ed', 'Ed25519'), ('ed', 'Ed448'), ('x', 'X25519'), ('x', 'X448')] + ([] if q else [('rsa', 2048), ('rsa', 4096), ('dsa', (2048, 256)), ('dh', 'modp2048')])
     for m in ('CKM_AES_KEY_WRAP', 'CKM_AES_KEY_WRAP_PAD', 'CKM_AES_CBC_PAD'):
         for wl in (16, 24, 32):
@@ -464,6 +522,10 @@ def specs(rnd, thorough):
                 for _ in range(1 if q else 3): add(fam='wrap_private', mech=m, wlen=wl, pk=pk)
     for i in range(120 if q else 600):
         add(fam='templates', which='wrap' if i % 2 else 'unwrap', i=i)
+    for which in ('wrap', 'unwrap'):
+        for m in ('CKM_AES_KEY_WRAP_PAD', 'CKM_AES_CBC_PAD', 'CKM_AES_KEY_WRAP'):
+            for pk in (('rsa', 1024), ('ec', 'P-256'), ('dsa', (1024, 160)), ('dh', 'modp1024'), ('ed', 'Ed25519'), ('x', 'X25519')) + (() if q else (('ec', 'P-521'), ('rsa', 2048), ('ed', 'Ed448'))):
+                for _ in range(1 if q else 3): add(fam='templates_priv', which=which, mech=m, wlen=rnd.choice((16, 24, 32)), pk=pk)
     # derive: asymmetric sources x requested type/length
     def targets(zlen): return [('generic', None), ('generic', zlen), ('generic', zlen - 1), ('generic', 1), ('generic', zlen // 2), ('generic', zlen + 1), ('aes', 16), ('aes', 24), ('aes', 32), ('aes', None), ('des2', None), ('des3', None)]
     for cv, zl in (('P-256', 32), ('P-384', 48), ('P-521', 66)):
@@ -497,7 +559,7 @@ def specs(rnd, thorough):
                 for _ in range(3 if q else 12): add(fam='kcv', how=how, kind=kind, klen=n)
     return S
 
-COST = {'wrap_private': 5, 'wrap_secret': 2, 'derive_asym': 2, 'templates': 2}
+COST = {'wrap_private': 5, 'templates_priv': 5, 'wrap_secret': 2, 'derive_asym': 2, 'templates': 2}
 def run(ctx):
     ctx.rule = ('one evaluation = one case: (wrap mechanism, wrapping key, wrapped key class/type/length) with both interoperability directions, round trip, attribute read-back, KCV and 6-9 '
                 'malformed blobs each checked against C_FindObjects before/after; or one (derive mechanism, base key, data length, requested type/length); or one WRAP/UNWRAP_TEMPLATE policy with '
